@@ -170,6 +170,20 @@ func (w *World) verifyFunc(fn *ssa.Function) *FuncResult {
 			st.assume(g)
 		}
 	}
+	// type invariants of by-value parameters (assumed here, checked where such values are passed on)
+	if ffc := w.contracts[key]; ffc == nil || !ffc.Flags["notypeinv"] {
+		for i := range fn.Params {
+			for _, c := range w.paramInvsFor(fn, i) {
+				env := x.newSpecEnv(st, st, fn)
+				env.vars[c.Param] = args[i]
+				if g, err := env.evalBool(c.Expr); err == nil {
+					st.assume(g)
+				} else {
+					x.contractError(c, err)
+				}
+			}
+		}
+	}
 	invs, invRecv := w.recvInvFor(fn)
 	evalInv := func(s *State, c *Clause) (*Term, error) {
 		env := x.newSpecEnv(s, s, fn)
